@@ -7,6 +7,10 @@ GT = "./internal/mysql/gtids"
 OPT = "./internal/app/optimization"
 
 REGISTRY = {
+    "C01": dict(
+        level="exploration",
+        units=[dict(pkg=APP, test="TestVerifC01", quick=3200, thorough=100000, shards_quick=16, shards_thorough=16)],
+    ),
     "C02": dict(
         level="exploration",
         units=[dict(pkg=APP, test="TestVerifC02", quick=640, thorough=20000, shards_quick=16, shards_thorough=16)],
